@@ -24,7 +24,7 @@ AUDIT = 'DeepModel/Audit/C11.lean'
 DRIVER = 'DeepModel/Driver/C11.lean'
 EXHAUSTIVE = True
 CHUNK = 1024
-BUDGET = {'quick': 64 + 500, 'thorough': 64 + 6000}
+BUDGET = {'quick': 64 + 500, 'thorough': 64 + 30000}
 TIME = {'quick': 70, 'thorough': 800}
 RULE = ('table: every combination of stage{absent,6 stages,unknown} x method_name{absent,given} x span{absent,line,method,'
         'unknown} x snapshot{absent,collect,no_collect,unknown} x log_msg x condition x fire_count x fire_period x '
@@ -39,8 +39,9 @@ TRUSTED = ['protobuf runtime: a TracePointConfig built from the case reads back 
            'rig.MockFrame events stand for CPython line/call events (location matching itself is C03)']
 ASSUMPTIONS = ['START/END/CAPTURE positions are not interpreted by the agent (DESIGN §6); two tracepoints on one line '
                'with different stages share one trigger and the first position',
-               'effects are driven only for places the handler can resolve without source files: lines, and methods '
-               'given by method_name (a method stage without method_name is compared structurally only)',
+               'a method-stage tracepoint without method_name sits on the same driven files as the others; the frames have '
+               'no source on disk (mock frames, like code compiled from a string), so it can never match: it is expected '
+               'to produce nothing itself and every other tracepoint of the file must still act (fix f435761)',
                'method names are identifiers (an all-digit method_name would share the id of a line location: '
                'theorem c11_id_clash_witness)']
 
@@ -624,9 +625,6 @@ def gen_tp(rng, i, effects=True):
     tp = {'id': 'tp%d' % i, 'path': path, 'line': rng.choice(LINES), 'args': args,
           'watches': rng.choice([[], [], ['x'], ['x', 'y[1]'], ['nope'], ['x + %d' % i]]),
           'metrics': [gen_metric(rng, 'm_%d_%d' % (i, j)) for j in range(rng.choice([0, 0, 0, 1, 2]))]}
-    loc = spec_location(tp)
-    if loc is not None and loc['kind'] == 'method' and loc['name'] is None:
-        tp['path'] = 'nm.py'          # unresolvable without source: kept off the driven files
     return tp, cond
 
 
@@ -634,8 +632,9 @@ def finish_case(rng, kind, tps, conds):
     places, seen = [], set()
     for tp in tps:
         loc = spec_location(tp)
-        if loc is None or (loc['kind'] == 'method' and loc['name'] is None) or tp['path'] == 'nm.py':
-            continue
+        if loc is None or (loc['kind'] == 'method' and loc['name'] is None):
+            continue            # a nameless method needs the source of the frame, which mock frames (like code compiled
+            #                     from a string) do not have: it can never match — and must cost only itself
         p = place_of(loc)
         if json.dumps(p) in seen:
             continue
@@ -659,9 +658,6 @@ def gen_list(rng, kind):
             tp['path'], tp['line'] = o['path'], o['line']
             if 'method_name' in o['args'] and 'method_name' in tp['args']:
                 tp['args']['method_name'] = o['args']['method_name']
-            loc = spec_location(tp)
-            if loc is not None and loc['kind'] == 'method' and loc['name'] is None:
-                tp['path'] = 'nm.py'
         tps.append(tp)
         conds.append(c)
     return finish_case(rng, kind, tps, conds)
@@ -727,6 +723,10 @@ def corpus():
         finish_case(rng, 'register', [good, bad], [None, None]),
         finish_case(rng, 'register', [bad, good], [None, None]),
         finish_case(rng, 'response', two, [None, 'true', 'false']),
+        # probe notes/probes/p_c11_nameless_method_blocks_file.py: the nameless method tracepoint costs only itself
+        finish_case(rng, 'response', [good, _tp(1, 'host.py', 12, {'stage': 'method_start'})], [None, None]),
+        finish_case(rng, 'register', [_tp(1, 'host.py', 12, {'stage': 'method_end', 'span': 'method'}), good],
+                    [None, None]),
         finish_case(rng, 'register', two, [None, 'true', 'false']),
     ]
 
@@ -740,6 +740,8 @@ def label(case, obs):
         return 'build/' + ('none' if obs.get('trigger') is None else obs['trigger']['loc']['kind'])
     specs = [spec_trigger(tp) for tp in case['tps']]
     unint = any(s is None for s in specs)
+    if any(s is not None and s['loc']['kind'] == 'method' and s['loc']['name'] is None for s in specs):
+        k += '/nameless-method'
     ids = [s['id'] for s in specs if s is not None]
     shared = len(set(ids)) < len(ids)
     return f'{k}/' + ('shared+' if shared else '') + ('uninterpretable' if unint else 'plain')
